@@ -17,6 +17,7 @@ import (
 // spec-only pseudo types
 var (
 	tyIntArr = types.NewNamed(types.NewTypeName(token.NoPos, nil, "intarr", nil), types.NewStruct(nil, nil), nil)
+	tyStrArr = types.NewNamed(types.NewTypeName(token.NoPos, nil, "strarr", nil), types.NewStruct(nil, nil), nil)
 	tyIntSet = types.NewNamed(types.NewTypeName(token.NoPos, nil, "intset", nil), types.NewStruct(nil, nil), nil)
 	tyStrSet = types.NewNamed(types.NewTypeName(token.NoPos, nil, "strset", nil), types.NewStruct(nil, nil), nil)
 	tyInt    = types.Typ[types.Int]
@@ -199,6 +200,8 @@ func (w *World) parseType(s string) (types.Type, error) {
 		return tyStr, nil
 	case "intarr":
 		return tyIntArr, nil
+	case "strarr":
+		return tyStrArr, nil
 	case "intset":
 		return tyIntSet, nil
 	case "strset":
